@@ -45,24 +45,8 @@ def norm(v):
     return [norm(x) for x in v]
 
 def parse_sx(s):
-    pos = 0
-    n = len(s)
-    stack = [[]]
-    i = 0
-    while i < n:
-        c = s[i]
-        if c == '(':
-            stack.append([]); i += 1
-        elif c == ')':
-            top = stack.pop(); stack[-1].append(top); i += 1
-        elif c == ' ':
-            i += 1
-        else:
-            j = i
-            while j < n and s[j] not in ' ()':
-                j += 1
-            stack[-1].append(int(s[i:j])); i = j
-    return stack[0][0]
+    """text of one s-expression of integers -> nested lists (through the C json parser)"""
+    return json.loads(s.replace('(', '[').replace(')', ']').replace(' ', ',').replace('[,', '[').replace(',]', ']'))
 
 def S(v):
     """decode a code-point list back to str (for messages)"""
@@ -197,20 +181,32 @@ class Model:
         return parse_sx(p.stdout.strip())
 
 _IMPL_FUNCS = None
+_ORACLE = None
 def _impl_worker(chunk):
+    """runs the implementation wrapper and (in the same worker) the property oracle on its output;
+    returns a list of (output, oracle_message_or_None)"""
     out = []
     for fn, arg in chunk:
         try:
-            out.append(_IMPL_FUNCS[fn](arg))
+            o = _IMPL_FUNCS[fn](arg)
         except BaseException as e:   # harness-level failure, reported as such
-            out.append(['HARNESS', repr(e), traceback.format_exc()[-800:]])
+            out.append((['HARNESS', repr(e), traceback.format_exc()[-800:]], None))
+            continue
+        msg = None
+        if _ORACLE is not None:
+            try:
+                msg = _ORACLE(fn, arg, o)
+            except Exception as e:
+                msg = 'oracle raised %r' % (e,)
+        out.append((o, msg))
     return out
 
-def run_impl(funcs, cases, procs=NPROC):
+def run_impl(funcs, cases, procs=NPROC, oracle=None):
     """funcs: {fn: callable(arg)->canonical result}.  fork-based pool so pybtex is the
-    working tree imported by this process."""
-    global _IMPL_FUNCS
+    working tree imported by this process.  Returns a list of (output, oracle message)."""
+    global _IMPL_FUNCS, _ORACLE
     _IMPL_FUNCS = funcs
+    _ORACLE = oracle
     if not cases:
         return []
     if len(cases) < 400 or procs <= 1:
@@ -318,6 +314,82 @@ def coqc_file(path, rundir, extra_Q=()):
     p = subprocess.run(cmd, capture_output=True, text=True, cwd=rundir)
     return p.returncode, (p.stdout + p.stderr)
 
+
+# ----------------------------------------------------------------------------------------
+# thorough tier: cross-check extraction against the kernel's evaluator, and coqchk
+def _coq_sx(v):
+    if isinstance(v, int):
+        return '(A (%d))' % v if v < 0 else '(A %d)' % v
+    return '(L [' + '; '.join(_coq_sx(x) for x in v) + '])'
+
+VM_HEADER = r"""From Pybtex Require Import Base.Prelude.
+Require Import %s.
+Open Scope Z_scope.
+Fixpoint sx_eqb (a b : sexp) {struct a} : bool :=
+  match a, b with
+  | A x, A y => Z.eqb x y
+  | L xs, L ys =>
+      (fix go (xs ys : list sexp) {struct xs} : bool :=
+         match xs, ys with
+         | nil, nil => true
+         | x :: xs', y :: ys' => andb (sx_eqb x y) (go xs' ys')
+         | _, _ => false
+         end) xs ys
+  | _, _ => false
+  end.
+Definition bad (cs : list (Z * sexp * sexp)) : nat :=
+  length (filter (fun c => negb (sx_eqb (dispatch (fst (fst c)) (snd (fst c))) (snd c))) cs).
+"""
+
+def vm_crosscheck(ck, pid, mcases, mouts, n=240, maxlen=1500):
+    """evaluate `dispatch` inside Coq (vm_compute) on a sample of the cases the extracted runner
+    executed and compare with the runner's outputs.  Returns dict(evaluated, disagreements, log)."""
+    idxs = [i for i, (fn, arg) in enumerate(mcases) if len(sx(arg)) <= maxlen and len(sx(mouts[i])) <= 4 * maxlen]
+    if not idxs:
+        return {'evaluated': 0, 'disagreements': 0, 'log': 'no case small enough'}
+    step = max(1, len(idxs) // n)
+    pick = idxs[::step][:n]
+    extr_dir = os.path.join(VERIF, '_build', 'extract', pid.lower())
+    files = []
+    per = 60
+    for k in range(0, len(pick), per):
+        path = os.path.join(ck.rundir, 'VmCases%d.v' % (k // per))
+        with open(path, 'w') as f:
+            f.write(VM_HEADER % pid)
+            f.write('Definition cases : list (Z * sexp * sexp) := [\n')
+            f.write(';\n'.join('(%d, %s, %s)' % (mcases[i][0], _coq_sx(mcases[i][1]), _coq_sx(mouts[i])) for i in pick[k:k + per]))
+            f.write('].\nEval vm_compute in (bad cases).\n')
+        files.append(path)
+    procs = [subprocess.Popen(['bash', '-c', 'ulimit -s unlimited 2>/dev/null; exec timeout 900 coqc -Q %s Pybtex -Q %s "" %s' % (COQ, extr_dir, f)],
+                              stdout=subprocess.PIPE, stderr=subprocess.STDOUT, text=True, cwd=ck.rundir) for f in files]
+    dis = 0; log = ''; done = 0
+    for p, f, k in zip(procs, files, range(0, len(pick), per)):
+        out, _ = p.communicate()
+        m = re.search(r'=\s*(\d+)(?:%nat)?\s*:\s*nat', out)
+        if p.returncode != 0 or not m:
+            dis += 1; log += 'coqc failed on %s: %s\n' % (os.path.basename(f), out[-600:])
+        else:
+            dis += int(m.group(1)); done += len(pick[k:k + per])
+    return {'evaluated': done, 'disagreements': dis, 'log': log[-1500:]}
+
+def coqchk_step(pid):
+    t = time.time()
+    p = subprocess.run(['timeout', '1500', 'coqchk', '-o', '-silent', '-Q', COQ, 'Pybtex', 'Pybtex.Props.' + pid], capture_output=True, text=True)
+    out = p.stdout + p.stderr
+    m = re.search(r'\* Axioms:(.*?)\n\s*\n\* Constants/Inductives relying on type-in-type:(.*?)\n\s*\n\* Constants/Inductives relying on unsafe \(co\)fixpoints:(.*?)\n\s*\n\* Inductives whose positivity is assumed:(.*?)\n', out, flags=re.S)
+    res = {'rc': p.returncode, 'wall_s': round(time.time() - t, 1), 'cmd': 'coqchk -o -silent -Q %s Pybtex Pybtex.Props.%s' % (COQ, pid)}
+    if m:
+        res.update({'axioms': ' '.join(m.group(1).split()), 'type_in_type': ' '.join(m.group(2).split()),
+                    'unsafe_fixpoints': ' '.join(m.group(3).split()), 'positivity_assumed': ' '.join(m.group(4).split())})
+        res['clean'] = p.returncode == 0 and all(res[k] == '<none>' for k in ('type_in_type', 'unsafe_fixpoints', 'positivity_assumed'))
+        axs = [] if res['axioms'] == '<none>' else re.findall(r'([A-Za-z0-9_\.\']+)\s*:', res['axioms']) or [res['axioms']]
+        res['nonstd_axioms'] = [a for a in axs if a not in STD_AXIOMS_OK and a.split('.')[-1] not in STD_AXIOMS_OK]
+        if res['nonstd_axioms']:
+            res['clean'] = False
+    else:
+        res['clean'] = False; res['tail'] = out[-800:]
+    return res
+
 # ----------------------------------------------------------------------------------------
 def load_known():
     out = []
@@ -367,7 +439,7 @@ class Check:
         return None
 
     def write_replay(self, rec):
-        d = os.path.join(VERIF, 'replays', self.pid)
+        d = os.path.join(os.environ.get('VERIF_REPLAY_DIR') or os.path.join(VERIF, 'replays'), self.pid)
         os.makedirs(d, exist_ok=True)
         h = hashlib.sha1(json.dumps(rec, sort_keys=True, default=str).encode()).hexdigest()[:12]
         path = os.path.join(d, h + '.json')
@@ -446,8 +518,27 @@ def run_check(mod, tier, seed):
                 model_ok = False
                 broken_obligations.append('extracted model runner failed: %r' % (e,))
         ck.log('model done')
-        iouts = run_impl(implf, plain)
-        ck.log('impl done')
+        thorough_info = {}
+        if tier == 'thorough' and ok and model_ok and not os.environ.get('VERIF_SKIP_KERNEL_XCHECK'):
+            mcases = [(fn, norm(marg(fn, arg))) for (fn, arg) in plain] if marg else plain
+            try:
+                vm = vm_crosscheck(ck, pid, mcases, mouts)
+            except Exception as e:
+                vm = {'evaluated': 0, 'disagreements': 1, 'log': repr(e)}
+            thorough_info['vm_compute_crosscheck'] = vm
+            ck.log('vm_compute cross-check: %s' % vm)
+            if vm['disagreements']:
+                broken_obligations.append('extracted runner and vm_compute evaluation of dispatch disagree (or the cross-check failed to compile): ' + vm['log'][-600:])
+            ch = coqchk_step(pid)
+            thorough_info['coqchk'] = ch
+            ck.log('coqchk: %s' % ch)
+            if not ch['clean']:
+                broken_obligations.append('coqchk -o on Props/%s did not come back clean: %s' % (pid, json.dumps(ch)[-600:]))
+        ipairs = run_impl(implf, plain, oracle=oracle)
+        iouts = [p[0] for p in ipairs]
+        omsgs = [p[1] for p in ipairs]
+        del ipairs
+        ck.log('impl + oracle done')
         mismatches = []
         oracle_fail = []
         distinct = set()
@@ -477,10 +568,7 @@ def run_check(mod, tier, seed):
                     except Exception:
                         pass
             if oracle:
-                try:
-                    msg = oracle(fn, arg, io)
-                except Exception as e:
-                    msg = 'oracle raised %r' % (e,)
+                msg = omsgs[idx]
                 if msg:
                     oracle_fail.append((idx, fn, arg, msg, io)); st['oracle_fail'] += 1
         ck.log('compared: %d mismatches, %d oracle failures, %d harness errors' % (len(mismatches), len(oracle_fail), len(harness_errors)))
@@ -492,15 +580,18 @@ def run_check(mod, tier, seed):
         extra = getattr(mod, 'extra_checks', None)
         extra_info = {}
         if extra:
+          try:
             for item in extra(ck, tier, rng):
-                # item: dict(name, evaluations, failures=[(desc, detail)], info)
-                extra_info[item['name']] = {k: item[k] for k in item if k not in ('failures',)}
-                for (desc, detail, found) in item.get('failures', []):
-                    k = ck.match_known('extra', item['name'], desc, detail)
-                    if k:
-                        ck.known_hits[k['id']] = ck.known_hits.get(k['id'], 0) + 1
-                    else:
-                        violations.append({'kind': 'extra:' + item['name'], 'case': desc, 'detail': detail, 'failing_input_found': found})
+                  # item: dict(name, evaluations, failures=[(desc, detail)], info)
+                  extra_info[item['name']] = {k: item[k] for k in item if k not in ('failures',)}
+                  for (desc, detail, found) in item.get('failures', []):
+                      k = ck.match_known('extra', item['name'], desc, detail)
+                      if k:
+                          ck.known_hits[k['id']] = ck.known_hits.get(k['id'], 0) + 1
+                      else:
+                          violations.append({'kind': 'extra:' + item['name'], 'case': desc, 'detail': detail, 'failing_input_found': found})
+          except Exception as e:
+            violations.append({'kind': 'extra:crashed', 'what': 'a property-specific extra check raised %r (the implementation no longer offers what the check observes, or the harness is broken)\n%s' % (e, traceback.format_exc()[-1200:]), 'failing_input_found': False})
 
         # ---- classify oracle failures (each is a concrete failing input on the implementation)
         new_oracle = []
@@ -573,10 +664,9 @@ def run_check(mod, tier, seed):
                 break
 
         # ---- broken obligations: search for a failing input through the oracle (already run above)
+        # (a broken obligation is always reported, also when some other violation already has a failing input)
         for b in broken_obligations:
-            anyfound = any(v.get('failing_input_found') for v in violations)
-            if not anyfound:
-                violations.append({'kind': 'obligation', 'what': b, 'failing_input_found': False})
+            violations.append({'kind': 'obligation', 'what': b, 'failing_input_found': False})
 
         # ---- known findings: replay the pinned input of each listed finding
         replay_known = getattr(mod, 'replay_known', None)
@@ -622,6 +712,8 @@ def run_check(mod, tier, seed):
             'mismatches': len(mismatches), 'oracle_failures': len(oracle_fail),
             'known_findings_reproduced': ck.known_hits,
             'functions_compared': sorted(v[0] for v in funcs.values()),
+            'kernel_crosschecks': thorough_info,
+            'vm_compute_crosschecked': thorough_info.get('vm_compute_crosscheck', {}).get('evaluated', 0),
         })
         ev['assumptions'] = getattr(mod, 'ASSUMPTIONS', [])
     except Exception as e:
@@ -647,8 +739,10 @@ def run_check(mod, tier, seed):
     ev['known_findings'] = known_lines
     ev['wall_s'] = round(time.time() - ck.t0, 2)
     ev['log'] = ck.logs
-    os.makedirs(os.path.join(VERIF, 'evidence'), exist_ok=True)
-    json.dump(ev, open(os.path.join(VERIF, 'evidence', pid + '.json'), 'w'), indent=1, default=str)
+    # evidence goes to /verif/evidence unless the run is a self-test against a scratch copy of the repository
+    evdir = os.environ.get('VERIF_EVIDENCE_DIR') or os.path.join(VERIF, 'evidence')
+    os.makedirs(evdir, exist_ok=True)
+    json.dump(ev, open(os.path.join(evdir, pid + '.json'), 'w'), indent=1, default=str)
     for l in known_lines:
         print(l)
     for l in out_lines:
